@@ -37,14 +37,14 @@ Print Assumptions C04_gate_tables.
 Theorem C04_gate_pat_handler : forall policy scripts fuzzing deep s c cx i pk,
   handler_consume policy scripts fuzzing deep (HPat s c) cx i pk =
     (do r <- spc_consume (table_cfg fuzzing) pat_state ctx event (pat_section policy) c cx pk;
-     Ok (HPat s (fst (fst r)), snd (fst r), snd r)).
+     Ok (HPat s (fst (fst r)), snd (fst r), EvPacket s i [] :: snd r)).
 Proof. exact gate_handlers. Qed.
 Print Assumptions C04_gate_pat_handler.
 
 Theorem C04_gate_pmt_handler : forall policy scripts fuzzing deep s c cx i pk,
   handler_consume policy scripts fuzzing deep (HPmt s c) cx i pk =
     (do r <- spc_consume (table_cfg fuzzing) pmt_state ctx event (pmt_section policy deep) c cx pk;
-     Ok (HPmt s (fst (fst r)), snd (fst r), snd r)).
+     Ok (HPmt s (fst (fst r)), snd (fst r), EvPacket s i [] :: snd r)).
 Proof. exact gate_handlers_pmt. Qed.
 Print Assumptions C04_gate_pmt_handler.
 
